@@ -145,6 +145,7 @@ func propC02(w *World, r *Report) {
 	RunBoundsControls(r)
 	RunLoopControls(r)
 	RunAllocControls(r)
+	RunNilControls(r)
 	r.Conds["charstring-budget"] = condGlobalBudget(w, "(*cff.decodeInfo).decodeCharString")
 	r.Conds["format12-budget"] = condExpansionBudget(w, "cmap.decodeFormat12")
 	r.Conds["glyphheight-guarded"] = func() (bool, string) {
@@ -192,6 +193,64 @@ func propC02(w *World, r *Report) {
 	total, proved := RunBounds(w, r, "bounds", br, fns)
 	r.Note("bounds: %d functions in scope, %d sites, %d proved by the prover", len(fns), total, proved)
 	r.Floor("bounds", 1200)
+	r.Conds["read-outlines-nonnil"] = condReadOutlines(w)
+	r.Conds["readers-meta-fresh"] = condReadersMeta(w)
+	r.Conds["cff-glyphs-nonnil"] = func() (bool, string) {
+		dc := w.Func("(*cff.decodeInfo).decodeCharString")
+		cr := w.Func("cff.Read")
+		if dc == nil || cr == nil {
+			return false, "decodeCharString / cff.Read not found"
+		}
+		nbr := newBoundsRun(w)
+		nbr.nilMode = true
+		if !nbr.nonNilResult(dc, 0, true) {
+			return false, "decodeCharString can return a nil glyph together with a nil error"
+		}
+		n := 0
+		for _, b := range cr.Blocks {
+			for _, in := range b.Instrs {
+				st, ok := in.(*ssa.Store)
+				if !ok {
+					continue
+				}
+				ia, ok := st.Addr.(*ssa.IndexAddr)
+				if !ok {
+					continue
+				}
+				sl, ok := ia.X.Type().Underlying().(*types.Slice)
+				if !ok || !strings.HasSuffix(sl.Elem().String(), "cff.Glyph") {
+					continue
+				}
+				n++
+				ex, ok := st.Val.(*ssa.Extract)
+				if !ok {
+					return false, "cff.Read stores something other than a decodeCharString result into the glyph list at " + w.Pos(st.Pos())
+				}
+				c, ok := ex.Tuple.(*ssa.Call)
+				if !ok || c.Call.StaticCallee() != dc || ex.Index != 0 {
+					return false, "cff.Read stores something other than a decodeCharString result into the glyph list at " + w.Pos(st.Pos())
+				}
+			}
+		}
+		if n == 0 {
+			return false, "cff.Read does not fill the glyph list"
+		}
+		return true, "cff.Read fills the glyph list with results of decodeCharString, which are non-nil when the error is nil"
+	}
+	r.Conds["readfdselect-nonnil"] = func() (bool, string) {
+		f := w.Func("cff.readFDSelect")
+		if f == nil {
+			return false, "cff.readFDSelect not found"
+		}
+		nbr := newBoundsRun(w)
+		nbr.nilMode = true
+		if nbr.nonNilResult(f, 0, true) {
+			return true, "every return of readFDSelect with a nil error yields a function"
+		}
+		return false, "readFDSelect can return a nil function together with a nil error"
+	}
+	RunNilDeref(w, r, newBoundsRun(w), append([]*ssa.Function{}, fns...))
+	r.Floor("nilderef", 60)
 	RunInvariants(w, r, br, fns)
 	handled := RunPreconds(w, r, br, fns)
 	for _, ps := range panicSites(w, fns) {
